@@ -19,6 +19,63 @@ from .report import Ctx, finish
 PROPS = [f"C{i:02d}" for i in range(1, 20)]
 
 
+_WRAPPED = set()
+
+
+def _wrap_checks():
+  """Every `check_*(ctx, ...)` function of the rule and property modules turns an AnalysisError
+  (anchor renamed, idiom not recognised) into an UNDECIDED record of that step instead of aborting
+  the property: the other rules still run, and nothing is concluded from the unrecognised shape."""
+  import functools
+  import types
+  for name, m in list(sys.modules.items()):
+    if not (name.startswith("ttverif.props.") or name.startswith("ttverif.rules.")) or m is None:
+      continue
+    for attr, fn in list(vars(m).items()):
+      if isinstance(fn, types.FunctionType) and fn.__module__ == name and (attr.startswith("check_") or attr in ("set_iteration", "unsat_ranges", "namedtuple_attrs")) and (name, attr) not in _WRAPPED:
+        def make(f):
+          @functools.wraps(f)
+          def wrapper(*a, **k):
+            try:
+              return f(*a, **k)
+            except AnalysisError as e:
+              c = next((x for x in a if hasattr(x, "undecide")), None)
+              if c is None:
+                raise
+              c.undecide(f.__name__, str(e))
+              return 0
+          return wrapper
+        setattr(m, attr, make(fn))
+        _WRAPPED.add((name, attr))
+
+
+def _run_steps(mod, ctx):
+  """Run the statements of the property's run(ctx) one by one; a statement that fails with an
+  AnalysisError (or that depends on a local an earlier undecided statement could not define)
+  becomes an UNDECIDED record and the next statement runs."""
+  import ast as _ast
+  import inspect
+  import textwrap
+  src = textwrap.dedent(inspect.getsource(mod.run))
+  tree = _ast.parse(src)
+  fn = tree.body[0]
+  body = []
+  for st in fn.body:
+    label = _ast.unparse(st).splitlines()[0][:100]
+    handler = _ast.ExceptHandler(
+      type=_ast.Tuple(elts=[_ast.Name(id="AnalysisError", ctx=_ast.Load()), _ast.Name(id="NameError", ctx=_ast.Load())], ctx=_ast.Load()), name="_e",
+      body=[_ast.Expr(_ast.Call(func=_ast.Attribute(value=_ast.Name(id=fn.args.args[0].arg, ctx=_ast.Load()), attr="undecide", ctx=_ast.Load()),
+                                args=[_ast.Constant(label), _ast.Call(func=_ast.Name(id="str", ctx=_ast.Load()), args=[_ast.Name(id="_e", ctx=_ast.Load())], keywords=[])], keywords=[]))])
+    body.append(_ast.Try(body=[st], handlers=[handler], orelse=[], finalbody=[]))
+  fn.body = body
+  fn.name = "_run_stepwise"
+  _ast.fix_missing_locations(tree)
+  ns = dict(vars(mod))
+  ns["AnalysisError"] = AnalysisError
+  exec(compile(tree, f"<stepwise {mod.__name__}.run>", "exec"), ns)
+  ns["_run_stepwise"](ctx)
+
+
 def run_check(prop: str, tier: str, root: str, only_key=None, quiet=False) -> int:
   try:
     mod = importlib.import_module(f"ttverif.props.{prop.lower()}")
@@ -30,7 +87,8 @@ def run_check(prop: str, tier: str, root: str, only_key=None, quiet=False) -> in
     ctx = Ctx(prop, tier, ix, only_key=only_key, quiet=quiet)
     ctx.undecided = list(getattr(mod, "UNDECIDED", []))
     ctx.trusted = list(getattr(mod, "TRUSTED", []))
-    mod.run(ctx)
+    _wrap_checks()
+    _run_steps(mod, ctx)
     show = os.environ.get("TTVERIF_SHOW")
     if show:
       for o in ctx.obs:
